@@ -99,6 +99,9 @@ type Op struct {
 	RetVal string `json:"retval,omitempty"`
 	// RetCap: ReturnConsumedCapacity of the request ("TOTAL", "INDEXES", "NONE"): bookkeeping the caller asks for,
 	// it changes neither what the request does nor whether it succeeds
+	// Billing / NoThroughput (UpdateTable): the BillingMode of the request; its index creations carry no ProvisionedThroughput
+	Billing      string `json:"billing,omitempty"`
+	NoThroughput bool   `json:"nothroughput,omitempty"`
 	// SharePtrs (SDK v1): equal values of one request map are ONE *AttributeValue used at several places
 	SharePtrs bool `json:"shareptrs,omitempty"`
 	RetCap string `json:"retcap,omitempty"`
